@@ -33,7 +33,9 @@ package cluster
 //@ props C20
 //@ requires [book] this.addresses != nil && this.conns != nil && forall j uint64 :: has(this.conns, j) ==> this.conns[j] != nil
 //@ ensures [listed] has(this.addresses, id)
-//@ ensures [C20 announced-address] this.addresses[id] == address
+//@ ensures [C20 announced-address] len(address) > 0 ==> this.addresses[id] == address
+//@ ensures [C20 no-address-keeps-known-address] len(address) == 0 && old(has(this.addresses, id)) ==> this.addresses[id] == old(this.addresses[id])
+//@ ensures [C20 first-listing] !old(has(this.addresses, id)) ==> this.addresses[id] == address
 //@ ensures [others] forall j uint64 :: j != id ==> has(this.addresses, j) == old(has(this.addresses, j)) && this.addresses[j] == old(this.addresses[j])
 //@ modifies map(this.addresses), map(this.conns)
 
